@@ -75,9 +75,9 @@ def run(ctx):
         if k % 4 != 3 and any(a[0] == b[0] and a[1] == b[1] and a[2] != b[2] for a in oq for b in oq):
             jobs.append(dict(case=c, variant=VARIANTS[3]))
     # Connectivity form: all edges between one pair of populations share one kernel
-    for c in sel[:300]:
+    for c in sel[:300] + [c for c in sel[300:] if c['cfg']['approx']]:
         kern = {(e['d'], tuple(e['s2'])) for e in c['m']['edges']}
-        if len(kern) == 1 and c['m']['kind'] == [1, 1, 2, 2] and c['cfg']['vec'] and not c['cfg']['approx'] and not c.get('discrete'):
+        if len(kern) == 1 and c['m']['kind'] == [1, 1, 2, 2] and c['cfg']['vec'] and (not c.get('discrete') or c['cfg']['approx']):
             jobs.append(dict(case=c, variant=VARIANTS[0], form='pop'))
     # adaptive solver: same augmented system, tolerance against the exact Euler-free reference computed by the harness
     ajobs = [dict(case=c, variant=VARIANTS[0], solver='scipy') for c in sel[:60 if tier == 'quick' else 600]
